@@ -130,6 +130,9 @@ func (w *World) CallSites(pats ...string) []CallSite {
 		if f.Origin() != nil { // analyse generic bodies once
 			continue
 		}
+		if helperFor(f) != nil {
+			continue // calls made by a transparent helper belong to its callers (adopt.go)
+		}
 		Instrs(f, func(in ssa.Instruction) {
 			if isCallTo(in, pats...) {
 				out = append(out, CallSite{in.(ssa.CallInstruction), f})
@@ -550,6 +553,20 @@ func pathD(v ssa.Value, d int) string {
 					}
 				}
 			}
+			// a variable captured by a closure that is analysed as part of its enclosing
+			// function (adopt.go) is that function's variable
+			if fv, ok := x.X.(*ssa.FreeVar); ok && helperFor(fv.Parent()) != nil {
+				if b := freeVarBinding(fv); b != nil {
+					if a, isA := b.(*ssa.Alloc); isA {
+						if sv := singleStore(a); sv != nil {
+							return pathD(sv, d-1)
+						}
+						if a.Comment != "" {
+							return "local:" + canonLocal(a)
+						}
+					}
+				}
+			}
 			p := pathD(x.X, d)
 			if strings.HasPrefix(p, "&") {
 				return p[1:]
@@ -907,7 +924,7 @@ func expandAlt(v ssa.Value, conds []Cond, b *ssa.BasicBlock, ret *ssa.Return, de
 // condsHave reports whether conds contain value-predicate p with polarity pol.
 func condsHave(conds []Cond, pol bool, p VP) bool {
 	for _, c := range conds {
-		if c.Pol == pol && p(c.V) {
+		if c.Pol == pol && (p(c.V) || len(helpers) > 0 && p(unhelp(c.V))) {
 			return true
 		}
 	}
@@ -1325,6 +1342,14 @@ func unhelp(v ssa.Value) ssa.Value {
 			break
 		}
 		v = rv
+		// a result spilled to a local because of a defer: the value stored there
+		if u, ok := v.(*ssa.UnOp); ok && u.Op == token.MUL {
+			if a, isA := u.X.(*ssa.Alloc); isA {
+				if sv := singleStore(a); sv != nil {
+					v = sv
+				}
+			}
+		}
 	}
 	return v
 }
@@ -1417,4 +1442,29 @@ func partStores(v ssa.Value, depth int) []*ssa.Store {
 		out = append(out, partStores(sub, depth-1)...)
 	}
 	return out
+}
+
+// freeVarBinding: the value bound to the captured variable where the closure is made.
+func freeVarBinding(fv *ssa.FreeVar) ssa.Value {
+	f := fv.Parent()
+	if f == nil || f.Parent() == nil {
+		return nil
+	}
+	idx := -1
+	for i, x := range f.FreeVars {
+		if x == fv {
+			idx = i
+		}
+	}
+	if idx < 0 {
+		return nil
+	}
+	for _, b := range f.Parent().Blocks {
+		for _, in := range b.Instrs {
+			if mc, ok := in.(*ssa.MakeClosure); ok && mc.Fn == ssa.Value(f) && idx < len(mc.Bindings) {
+				return mc.Bindings[idx]
+			}
+		}
+	}
+	return nil
 }
